@@ -16,7 +16,7 @@ F2(gk) == CASE gk = "black" -> "abs" [] gk = "white" -> "abs" [] gk = "required"
 FnLim(l, f) == [k |-> "fn", n |-> l.n, f |-> f]
 
 HBase(h) == [evenOdd |-> h.eo, cut |-> Cut, cutFact |-> CutFact, xs |-> XsOf("frac"), cval |-> CVal, vars |-> {"x"}, ivars |-> {"c"},
-             tol |-> Tols["default"], userfuncs |-> {}, forbidden |-> {}, required |-> {}, listing |-> "black"]
+             tol |-> Tols["default"], userfuncs |-> {}, forbidden |-> {}, required |-> {}, listing |-> "black", debug |-> FALSE]
 HCfg(h, g) ==
   LET b == HBase(h) IN
   CASE h.gk = "black" -> (IF g = 1 THEN [b EXCEPT !.forbidden = {"cos"}] ELSE b)
@@ -36,6 +36,8 @@ HSub(h, kind) ==
     [] kind = "fnup" -> [a EXCEPT !.upper = FnLim(a.upper, F2(h.gk))]
     [] kind = "fnbody" -> [a EXCEPT !.body = [a.body EXCEPT !.calls = <<F1(h.gk)>>]]
     [] kind = "shifted" -> Transform(<<"shift", 1>>, a, Cut)
+    \* the summation variable named after the function F1 -- a name with a meaning whether or not submissions may call it
+    [] kind = "varfn" -> WithVar(a, F1(h.gk))
     [] kind = "wrong" -> Transform(<<"hi", -1>>, a, Cut)
 
 Calls == [g : 1..2, s : SubKinds]
@@ -43,9 +45,11 @@ NoCall == [g |-> 0, s |-> "none"]
 \* all histories of two calls, and those of three calls that end in the plain or the shifted text
 Thirds == {NoCall} \cup [g : 1..2, s : (IF L > 3 THEN {"clean", "shifted"} ELSE {"clean"})]
 HSeeds == {[kind |-> "seed", gk |-> k, sid |-> s, eo |-> e, l |-> l, u |-> u, c1 |-> c1] :
-             c1 \in Calls, k \in GraderKinds, s \in (IF L > 3 THEN {"quad", "xlin"} ELSE {"quad"}), e \in {0},
+             c1 \in Calls \cup [g : 1..2, s : {"varfn"}], k \in GraderKinds, s \in (IF L > 3 THEN {"quad", "xlin"} ELSE {"quad"}), e \in {0},
              l \in {LInt(1)} \cup (IF L > 3 THEN {LInt(-2)} ELSE {}), u \in {LInt(4)}}
-HCases(s) == [kind : {"hist"}, gk : {s.gk}, sid : {s.sid}, eo : {s.eo}, l : {s.l}, u : {s.u}, c1 : {s.c1}, c2 : Calls, c3 : Thirds]
+HCases(s) == [kind : {"hist"}, gk : {s.gk}, sid : {s.sid}, eo : {s.eo}, l : {s.l}, u : {s.u}, c1 : {s.c1},
+               c2 : (IF s.c1.s = "varfn" THEN [g : {s.c1.g}, s : {"clean"}] ELSE Calls),
+               c3 : (IF s.c1.s = "varfn" THEN {NoCall} ELSE Thirds)]
 CallSeq(h) == IF h.c3 = NoCall THEN <<h.c1, h.c2>> ELSE <<h.c1, h.c2, h.c3>>
 
 HInit == c \in HSeeds /\ io = "seed" /\ out = <<>>
@@ -72,5 +76,7 @@ LawFunctionUse == IsHist /\ c.c2 = c.c1 /\ c.c3 = NoCall =>
                           /\ AllowedOf(2, "fnlow") = {"student_err"} /\ AllowedOf(2, "fnup") = {"correct"}
   /\ c.gk = "userfn" => AllowedOf(1, "fnlow") = {"correct"} /\ AllowedOf(2, "fnlow") = {"student_err"}
                         /\ AllowedOf(1, "clean") = {"correct"} /\ AllowedOf(2, "fnbody") = {"student_err"}
+\* a function name is refused as summation variable by the grader that knows the function, permitted in answers or not
+LawFunctionNameAsVariable == IsHist /\ c.c1.s = "varfn" /\ ~(c.gk = "userfn" /\ c.c1.g = 2) => out[1] = {"student_err"}
 LawWrongIsNotCorrect == IsHist => \A i \in 1..Len(out) : CallSeq(c)[i].s = "wrong" => "correct" \notin out[i]
 =============================================================================
